@@ -97,7 +97,7 @@ class Chooser(object):
         if n == 0:
             raise IndexError('Cannot choose from an empty sequence')
         k, c = self._choose('choice/%d' % n, n)
-        self.values.append(c)
+        self.values.append(('choice', seq, c))
         return seq[c]
 
 
